@@ -1,5 +1,6 @@
 PROP = {
-    "groups": ["relayneg", "e2e-tmux-relay"],
+    "shared_groups": "also runs the neighbouring groups whose code can break this property: tunnel-relay (described under C17)",
+    "groups": ["relayneg", "e2e-tmux-relay", "tunnel-relay"],
     "rule": "the REAL relay: (a) handshake() run through the export on relays with every tmux mode / known and unknown pane "
             "width / Windows-server flag: every client capability set (binary, support_dir, fork, tunnel each absent/false/true x "
             "protocol absent,0..9 x newline absent,\\n,!\\n) against a corpus with every server option, then random ACT x CFG "
